@@ -439,8 +439,11 @@ def coverage(model, rep, covered, notrun):
                 or any(qual + '[setter]' == k for k in ())
             if not ok:
                 uncovered.append(f'{qual} ({len(reads)} reads): {notrun.get(qual, notrun.get(qual + "[setter]", "not visited"))}')
-    rep.decide(not uncovered, 'C07.coverage', '.value reads', f'raw-value reads outside every analysis: {uncovered[:4]}',
-               detail=f'{total} .value reads outside the units package, all in analysed or explicitly listed functions')
+    if uncovered:
+        # not a verdict about the code: the census is fail-closed, a read that no analysis reached leaves the property undecided
+        rep.cannot('C07.coverage', '.value reads', f'raw-value reads outside every analysis: {uncovered[:4]}')
+    else:
+        rep.holds('C07.coverage', '.value reads', f'{total} .value reads outside the units package, all in analysed or explicitly listed functions')
     rep.analysed['value_reads'] = total
     rep.analysed['excluded'] = EXCLUDED
     rep.analysed['covered_elsewhere'] = COVERED_ELSEWHERE
